@@ -352,6 +352,48 @@ fn mixed_sequences(rep: &mut Report, rng: &mut Rng, n_seq: u64) {
             }
             rep.count("mixed_sequence_blocks");
         }
+        // the same blocks arranged as a grid over a cropped plane, as in a decoded picture whose width
+        // and height are not multiples of the block size (sometimes with whole blocks outside): every
+        // visible sample must receive exactly the residual it gets in the one-row arrangement
+        {
+            let bw = *rng.pick(&[1usize, 2, 3, 4, 5, 6, 8, 10, 12]);
+            let bh = 120 / bw;
+            let nb = bw * bh;
+            let spl = (bw * 8).saturating_sub(rng.below(if bw > 1 { 16 } else { 8 }) as usize).max(1);
+            let rows = (bh * 8).saturating_sub(rng.below(if bh > 1 { 16 } else { 8 }) as usize).max(1);
+            let grid: Vec<DecodedDctBlock> = blocks[..nb].to_vec();
+            let run = |prefill: u8| -> Vec<u8> {
+                let mut plane = vec![prefill; spl * rows];
+                idct_channel(&grid, &mut plane, bw, spl);
+                plane
+            };
+            match catch(|| (run(0), run(255))) {
+                Err(p) => {
+                    rep.violation(format!("panic@{}", p.loc), format!("IDCT panicked on a {}x{}-block grid over a {}x{} plane: {}", bw, bh, spl, rows, p.msg), coords());
+                    return;
+                }
+                Ok((lo, hi)) => {
+                    for y in 0..rows {
+                        for x in 0..spl {
+                            let b = (y / 8) * bw + x / 8;
+                            let resid = lo[y * spl + x] as i32 + hi[y * spl + x] as i32 - 255;
+                            let want = got[b][y % 8][x % 8];
+                            if resid != want {
+                                rep.violation("geometry-dependence", format!("{}x{}-block grid over a {}x{} plane: sample ({},{}) of block {} gets residual {} but {} in the one-row arrangement", bw, bh, spl, rows, x, y, b, resid, want), coords());
+                                return;
+                            }
+                        }
+                    }
+                    rep.count("cropped_grid_planes");
+                    if spl % 8 != 0 {
+                        rep.count("cropped_grid_planes_partial_columns");
+                    }
+                    if spl + 8 <= bw * 8 || rows + 8 <= bh * 8 {
+                        rep.count("cropped_grid_planes_with_blocks_outside");
+                    }
+                }
+            }
+        }
         rep.distinct.insert(crate::util::fnv64(&seq.iter().map(|s| *s as u8).collect::<Vec<u8>>()) ^ rng.next());
     }
 }
@@ -451,6 +493,9 @@ pub fn run(ctx: &Ctx) -> (Report, String) {
         rep.require("shape_blocks:Vert", n_rand / 16 * (8 + extra as u64));
         rep.require("zero_blocks_ok", 15);
         rep.require("mixed_sequence_blocks", 100_000);
+        rep.require("cropped_grid_planes", 1000);
+        rep.require("cropped_grid_planes_partial_columns", 500);
+        rep.require("cropped_grid_planes_with_blocks_outside", 100);
         rep.require("structured_full_blocks", 30_000);
     }
     (rep, rule())
